@@ -156,7 +156,9 @@ def w_large(acc, n, pair):
 
 def w_truncations(acc):
     blocks = ["@article{k9,\n  title = {A {B} c},\n  author = \"X and Y\",\n  year = 2000,\n}", "@string{s9 = \"str\" # {x}}", "@preamble{pre {x} y}", "@comment{a {b} c}",
-              "@a{k9, t = \"q {\"} r\", u = {v}}"]
+              "@a{k9, t = \"q {\"} r\", u = {v}}",
+              # an entry that repeats a field key: whatever the splitter remembers about it must not outlive the block
+              "@article{k9, title = {A}, title = {B}, note = {closed}, z = 1}", "@a{k9, x = 1, X = 2, x = 3,\n y = {z}, y = \"w\"}"]
     for b in blocks:
         for i in range(len(b) + 1):
             for p in range(len(PAIRS)):
